@@ -430,10 +430,17 @@ pub fn build_controller(op: &Op) -> rqsc::QoSController {
             *mcid,
             *flags,
         );
-        for r in res {
+        // the controller is Clone: half of the resources go into the original, the rest into a clone
+        // of it (which must carry the accumulated length and count along)
+        let half = res.len() / 2;
+        for r in &res[..half] {
             c.add_resource(build_rqsc_resource(r));
         }
-        c
+        let mut c2 = if res.len() % 3 == 0 { c } else { c.clone() };
+        for r in &res[half..] {
+            c2.add_resource(build_rqsc_resource(r).clone());
+        }
+        c2
     } else {
         unreachable!()
     }
